@@ -193,13 +193,37 @@ func cmpBooleanBoolean(t iterator, op string, m, n interface{}) bool {
 	return cmpBooleanBooleanF(op, a, b)
 }
 
-// boolean vs number, string or node-set: the other operand is converted with boolean()
+// boolean vs number, string or node-set: for = and != the other operand is converted with
+// boolean(); for the relational operators both operands are numbers (XPath 1.0 §3.4), a
+// node-set being converted with boolean() first.
 func cmpBooleanAny(t iterator, op string, m, n interface{}) bool {
+	if isRelationalOp(op) {
+		return cmpNumberNumberF(op, boolToNumber(m.(bool)), numberBesideBoolean(t, n))
+	}
 	return cmpBooleanBooleanF(op, m.(bool), asBool(t, n))
 }
 
 func cmpAnyBoolean(t iterator, op string, m, n interface{}) bool {
+	if isRelationalOp(op) {
+		return cmpNumberNumberF(op, numberBesideBoolean(t, m), boolToNumber(n.(bool)))
+	}
 	return cmpBooleanBooleanF(op, asBool(t, m), n.(bool))
+}
+
+func isRelationalOp(op string) bool {
+	return op == "<" || op == "<=" || op == ">" || op == ">="
+}
+
+// numberBesideBoolean is the number a relational operator sees in the operand v whose other
+// operand is a boolean.
+func numberBesideBoolean(t iterator, v interface{}) float64 {
+	switch v := v.(type) {
+	case float64:
+		return v
+	case string:
+		return stringToNumber(v)
+	}
+	return boolToNumber(asBool(t, v))
 }
 
 // eqFunc is an `=` operator.
